@@ -16,25 +16,57 @@ Definition target (o : op) : option nat :=
 
 (* Message.SetField, RepeatedField.checkMutable, MapField.checkMutable: every
    mutator through a wrapper whose flag is set fails and changes nothing *)
+Definition unchanged (st : state) (r : result * state) : Prop := snd r = st /\ fst r <> ROk.
+
+Lemma wmm_frozen st i w k : var st i = Some w -> flag st (w_flag w) = true ->
+  unchanged st (with_mutable_msg st i k).
+Proof.
+  intros V F. unfold with_mutable_msg, with_msg. rewrite V.
+  destruct (msg_at st (w_loc w)); [rewrite F|]; split; try reflexivity; discriminate.
+Qed.
+
+Lemma wm_same st i k : (forall w m, var st i = Some w -> unchanged st (k w m)) -> unchanged st (with_msg st i k).
+Proof.
+  intro H. unfold with_msg. destruct (var st i) as [w|] eqn:V; [|split; [reflexivity|discriminate]].
+  destruct (msg_at st (w_loc w)); [apply H; reflexivity|split; [reflexivity|discriminate]].
+Qed.
+
+Lemma unchanged_err st : unchanged st (RErr, st).
+Proof. split; [reflexivity|discriminate]. Qed.
+Lemma unchanged_unset st : unchanged st (RUnset, st).
+Proof. split; [reflexivity|discriminate]. Qed.
+
 Lemma frozen_blocks_lemma st o i w :
   target o = Some i -> var st i = Some w -> flag st (w_flag w) = true ->
   snd (step st o) = st /\ fst (step st o) <> ROk.
 Proof.
-  intros T V F.
-  destruct o; simpl in T; try discriminate; inversion T; subst; cbn [step];
-    unfold with_mutable_msg, with_msg;
-    try (destruct (var st j) as [wj|]; [|split; [reflexivity|discriminate]]);
-    rewrite ?V;
-    try (destruct (msg_at st (w_loc wj)) as [mj|]; [|split; [reflexivity|discriminate]]);
-    rewrite ?V;
-    destruct (msg_at st (w_loc w)) as [m|]; try (split; [reflexivity|discriminate]);
-    rewrite ?F; try (split; [reflexivity|discriminate]).
-  - destruct (view_ri st m); [rewrite F|]; split; try reflexivity; discriminate.
-  - destruct (view_ri st m); [|split; [reflexivity|discriminate]].
-    destruct (negb (Nat.ltb k (length (ilist_at st n)))); [|rewrite F]; split; try reflexivity; discriminate.
-  - destruct (view_rm st m); [rewrite F|]; split; try reflexivity; discriminate.
-  - destruct (view_mi st m); [rewrite F|]; split; try reflexivity; discriminate.
-  - destruct (view_mm st m); [rewrite F|]; split; try reflexivity; discriminate.
+  intros T V F. change (unchanged st (step st o)).
+  destruct o; simpl in T; try discriminate; inversion T; subst; cbn [step].
+  - apply (wmm_frozen st i w _ V F).
+  - apply (wmm_frozen st i w _ V F).
+  - destruct (var st j); [apply (wmm_frozen st i w _ V F)|apply unchanged_unset].
+  - apply (wmm_frozen st i w _ V F).
+  - apply wm_same. intros w' m V'. rewrite V in V'. inversion V'; subst w'.
+    destruct (view_ri st m); [rewrite F|]; apply unchanged_err.
+  - apply wm_same. intros w' m V'. rewrite V in V'. inversion V'; subst w'.
+    destruct (view_ri st m); [|apply unchanged_err].
+    destruct (negb (Nat.ltb k (length (ilist_at st n)))); [|rewrite F]; apply unchanged_err.
+  - apply wm_same. intros wj mj Vj. apply (wmm_frozen st i w _ V F).
+  - apply (wmm_frozen st i w _ V F).
+  - destruct (var st j); [|apply unchanged_unset].
+    apply wm_same. intros w' m V'. rewrite V in V'. inversion V'; subst w'.
+    destruct (view_rm st m); [rewrite F|]; apply unchanged_err.
+  - apply wm_same. intros wj mj Vj. apply (wmm_frozen st i w _ V F).
+  - apply wm_same. intros w' m V'. rewrite V in V'. inversion V'; subst w'.
+    destruct (view_mi st m); [rewrite F|]; apply unchanged_err.
+  - destruct (var st j); [|apply unchanged_unset].
+    apply wm_same. intros w' m V'. rewrite V in V'. inversion V'; subst w'.
+    destruct (view_mm st m); [rewrite F|]; apply unchanged_err.
+  - apply wm_same. intros wj mj Vj. apply (wmm_frozen st i w _ V F).
+  - apply wm_same. intros wj mj Vj. apply (wmm_frozen st i w _ V F).
+  - destruct (var st j); [apply (wmm_frozen st i w _ V F)|apply unchanged_unset].
+  - apply (wmm_frozen st i w _ V F).
+  - destruct (var st j); [apply (wmm_frozen st i w _ V F)|apply unchanged_unset].
 Qed.
 
 Lemma flag_set_var st i w f : flag (set_var st i w) f = flag st f.
